@@ -11,6 +11,7 @@ use vaporetto_rules::SentenceFilter;
 use vcommon::engine::{Info, Report, TestResult};
 use vcommon::gen::pick;
 use vcommon::oracle::{self, RefSentence, NB, UNK, WB};
+#[allow(unused_imports)]
 use vcommon::{ensure, ensure_eq};
 
 use crate::util;
